@@ -51,8 +51,8 @@ def parse_run(lines):
     ops, viols, probes, err = [], [], {}, []
     for l in lines:
         if l.startswith("OP "):
-            parts = l.split(" ", 6)
-            ops.append((int(parts[1]), parts[2], parts[3] == "1", parts[4], parts[5] == "1", json.loads(parts[6])))
+            parts = l.split(" ", 7)
+            ops.append((int(parts[1]), parts[2], parts[4] == "1", parts[5], parts[6] == "1", json.loads(parts[7]), parts[3]))
         elif l.startswith("VIOL "):
             viols.append(json.loads(l[5:]))
         elif l.startswith("PROBE "):
@@ -128,7 +128,7 @@ def failure_classes(binary, refs, scenario):
         return [("runner-crash", "", {"exit": rc, "stderr": err[-500:]})]
     refs.ensure({o[5] for o in ops})
     found = []
-    for (oid, oh, ok, prefix, nt, key) in ops:
+    for (oid, oh, ok, prefix, nt, key, _sem) in ops:
         if refs.map[key] != oh:
             found.append(("history-dependent-result", key, {"op": oid}))
     for v in viols:
@@ -210,7 +210,7 @@ def run(tier, seed):
             ops_total += len(ops)
             for k, v in probes.items():
                 totals[k] = totals.get(k, 0) + v
-            for (oid, oh, ok, prefix, nt, key) in ops:
+            for (oid, oh, ok, prefix, nt, key, _sem) in ops:
                 if nt:
                     distinct.add(hash((prefix, key)))
                 if refs.map[key] != oh:
